@@ -4,10 +4,23 @@ import ObiVerif.Model.Fasta
 
 Lines: GenBank uses `bufio.Reader.ReadLine` (a `\n`-terminated line loses `\n` or `\r\n`; the last,
 unterminated line is returned as it is), EMBL uses `bufio.Scanner` with `ScanLines` (every line,
-also the last one, loses one trailing `\r`).  Lines longer than the bufio limits (4096 / 65536 bytes)
-are outside the model (GenBank: any line longer than 100 bytes is fatal anyway).
-`strings.TrimSpace` is modelled on ASCII (`\t \n \v \f \r space`); the Unicode spaces it also trims
-cannot occur in the ASCII inputs the harness generates.  `_seqlenght_rx` only sizes a buffer.
+also the last one, loses one trailing `\r`).
+
+bufio limits.  GenBank: `ReadLine` on the default 4096-byte `bufio.Reader` returns `isPrefix = true` for a
+line that does not fit; the parser then calls `log.Fatalf`, exactly as for every line longer than 100
+bytes (`is_prefix || len(line) > 100`), so the 4096 limit is not observable: `gbLine` is exact for lines
+of any length.  EMBL: the `bufio.Scanner` token buffer holds at most `bufio.MaxScanTokenSize` = 65536
+bytes; `Scan` returns false with `ErrTooLong` at the first line whose `\n` is not among the 65536 bytes
+that follow the line start (an unterminated last line of 65536 bytes or more likewise), and
+`EmblChunkParser` never looks at `scanner.Err()`: the rest of the CHUNK is silently ignored
+(`linesScanMax`, `parseEmbl = parseEmblMax maxScanTok`).
+
+`strings.TrimSpace` is modelled exactly on bytes: the six ASCII white-space bytes and the UTF-8 encodings
+of the non-ASCII runes of `unicode.IsSpace` (U+0085, U+00A0, U+1680, U+2000…U+200A, U+2028, U+2029,
+U+202F, U+205F, U+3000); an invalid or overlong encoding decodes to U+FFFD (width 1), which is not a
+space, so trimming stops there (`utf8.DecodeRuneInString` forwards, `utf8.DecodeLastRuneInString`
+backwards: the last rune is a space iff the string ends with one of these encodings).
+`_seqlenght_rx` only sizes a buffer.
 
 Repaired behaviour (patch `C01-flatfile-record-state-reset`): `taxid`, `scientificName` (and the
 EMBL `id`) are reset when a record is emitted at `//`.
@@ -36,17 +49,92 @@ def linesReadLine (data : Seq) : List Seq :=
   match splitNl data [] with
   | (ls, last) => ls.map dropCR ++ (if last.isEmpty then [] else [last])
 
-/-- the successive tokens of `bufio.Scanner` / `ScanLines` -/
+/-- the successive tokens of `bufio.Scanner` / `ScanLines` with an unbounded token buffer -/
 def linesScan (data : Seq) : List Seq :=
   match splitNl data [] with
   | (ls, last) => ls.map dropCR ++ (if last.isEmpty then [] else [dropCR last])
+
+/-- `bufio.MaxScanTokenSize` (the parsers never call `Scanner.Buffer`) -/
+def maxScanTok : Nat := 65536
+
+/-- the successive tokens of `bufio.Scanner` / `ScanLines` whose token buffer holds `max` bytes, until
+`Scan()` returns false: at the end of the data, or (`ErrTooLong`) at the first line that does not fit
+with its `\n` into `max` bytes, i.e. whose length without `\n` (a `\r` counts) is `≥ max`; an
+unterminated last line fits when it is shorter than `max` (the buffer must have room left for the
+`Read` that reports the end of the data). -/
+def linesScanMax (max : Nat) (data : Seq) : List Seq :=
+  match splitNl data [] with
+  | (ls, last) =>
+    if ls.all (fun l => l.length < max) then
+      ls.map dropCR ++ (if last.isEmpty || max ≤ last.length then [] else [dropCR last])
+    else (ls.takeWhile (fun l => l.length < max)).map dropCR
+
+/-- every line (without its `\n`, the unterminated last one included) is shorter than `max`;
+`n` = number of bytes of the current line already seen -/
+def shortRun (max : Nat) : Seq → Nat → Bool
+  | [], n => n < max
+  | c :: t, n => if c == 10 then decide (n < max) && shortRun max t 0 else shortRun max t (n + 1)
+
+/-- hypothesis of the EMBL theorems: no line of 65536 bytes or more (EMBL lines have at most 80) -/
+def shortLines (max : Nat) (data : Seq) : Bool := shortRun max data 0
 
 def hasPrefix (p l : Seq) : Bool := l.take p.length == p
 
 def isAsciiSpace (c : UInt8) : Bool := c == 32 || (9 ≤ c && c ≤ 13)
 
-/-- `strings.TrimSpace` (ASCII) -/
-def trimSpace (l : Seq) : Seq := ((l.dropWhile isAsciiSpace).reverse.dropWhile isAsciiSpace).reverse
+/-- width of the white-space rune (`unicode.IsSpace`) whose UTF-8 encoding starts the bytes; 0 = the
+first rune is not a space (also: invalid encoding, end of the string) -/
+def spaceAt : Seq → Nat
+  | [] => 0
+  | c :: t =>
+    if isAsciiSpace c then 1
+    else if c == 0xC2 then
+      match t with
+      | d :: _ => if d == 0x85 || d == 0xA0 then 2 else 0
+      | _ => 0
+    else if c == 0xE1 then
+      match t with
+      | d :: e :: _ => if d == 0x9A && e == 0x80 then 3 else 0
+      | _ => 0
+    else if c == 0xE2 then
+      match t with
+      | d :: e :: _ =>
+        if d == 0x80 && ((0x80 ≤ e && e ≤ 0x8A) || e == 0xA8 || e == 0xA9 || e == 0xAF) then 3
+        else if d == 0x81 && e == 0x9F then 3 else 0
+      | _ => 0
+    else if c == 0xE3 then
+      match t with
+      | d :: e :: _ => if d == 0x80 && e == 0x80 then 3 else 0
+      | _ => 0
+    else 0
+
+/-- the same on the reversed string: width of the white-space rune whose encoding ENDS the string -/
+def spaceAtRev : Seq → Nat
+  | [] => 0
+  | c :: t =>
+    if isAsciiSpace c then 1
+    else match t with
+      | d :: t' =>
+        if d == 0xC2 && (c == 0x85 || c == 0xA0) then 2
+        else match t' with
+          | e :: _ =>
+            if e == 0xE1 && d == 0x9A && c == 0x80 then 3
+            else if e == 0xE2 && d == 0x80 && ((0x80 ≤ c && c ≤ 0x8A) || c == 0xA8 || c == 0xA9 || c == 0xAF) then 3
+            else if e == 0xE2 && d == 0x81 && c == 0x9F then 3
+            else if e == 0xE3 && d == 0x80 && c == 0x80 then 3
+            else 0
+          | _ => 0
+      | _ => 0
+
+/-- drop white-space runes as long as `w` finds one (fuel = length of the string) -/
+def trimWith (w : Seq → Nat) : Nat → Seq → Seq
+  | 0, l => l
+  | f + 1, l => if w l == 0 then l else trimWith w f (l.drop (w l))
+
+/-- `strings.TrimSpace` on the bytes of a Go string (exact, see the header) -/
+def trimSpace (l : Seq) : Seq :=
+  let a := trimWith spaceAt l.length l
+  (trimWith spaceAtRev a.length a.reverse).reverse
 
 /-- `strings.SplitN(s, string(sep), n)` for `n ≥ 1` -/
 def splitN (sep : UInt8) : Nat → Seq → List Seq
@@ -228,8 +316,13 @@ def emRun (withFeat : Bool) : EmSt → List Seq → EmSt × List Rec
       match emRun withFeat s' t with
       | (s'', rs) => (s'', r.toList ++ rs)
 
+/-- `EmblChunkParser(withFeatureTable)(source, chunk)` with a `max`-byte scanner buffer (no error path:
+`scanner.Err()` is not consulted) -/
+def parseEmblMax (max : Nat) (withFeat : Bool) (chunk : Seq) : Except Fatal (List Rec) :=
+  .ok (emRun withFeat {} (linesScanMax max chunk)).2
+
 /-- `EmblChunkParser(withFeatureTable)(source, chunk)` -/
 def parseEmbl (withFeat : Bool) (chunk : Seq) : Except Fatal (List Rec) :=
-  .ok (emRun withFeat {} (linesScan chunk)).2
+  parseEmblMax maxScanTok withFeat chunk
 
 end ObiVerif.Parse
